@@ -48,6 +48,39 @@ T = {
            'anchor channel, unilateral close, unconfirmed externally funded claim, estimator dropping below a fifth of the previous feerate', 'demo_c07', None),
  'C12-a': ('C12', 'write_claimable_htlc writes mpp_part.value under TLV 3 instead of sender_intended_value: after a reload an underpaid but complete payment is failed back with MPPTimeout',
            'manager written while a claimable HTLC has value != sender_intended_value (skimmed fee)', 'demo_c12', None),
+
+ 'C15-b': ('C15', 'peer_handler do_read_event sizes the message-body read buffer as `msg_len + 16` in u16: a valid authenticated message of 65520..65535 bytes overflows (debug: panic; release: wraps, assert / underflow in decrypt): a peer can crash the node and the message is never delivered',
+           'one message with encoded length >= 65520 after the handshake', 'demo_c15b',
+           'C15: gen_noise_consts.py TRANSLATE-ERROR (shape pin on the body buffer sizing) + c15peer impl oracle "PeerManager panicked in a 42-message scenario: attempt to add with overflow"'),
+ 'C16-b': ('C16', 'get_route: minimal_value_contribution_msat = max(final_value / max_path_count, 1) instead of div_ceil: the router can return more paths than max_path_count',
+           'MPP, amount not a multiple of max_path_count, more than max_path_count paths whose limit is exactly the floor value', 'demo_c16b',
+           'C16: regenerated minimal_value_contribution_msat breaks theorem min_contribution_covers (under path_count_bounded); c16router impl oracle "find_route panicked (assertion failed: paths.len() <= payment_params.max_path_count.into() …) on: noroute 0 1 12634004 …" from the fan-graph family. First run missed it: the fragmentation bound was not modelled and every router debug assertion was discarded as "own assertion" — now only the two observed on the unchanged tree are'),
+ 'C17-b': ('C17', 'add_channel_between_nodes: when a chain-validated announcement replaces an existing SCID, remove_channel_in_nodes is given the NEW channel_info: the old endpoints keep the SCID in their channel lists (stale node entries; a later node failure deletes an unrelated channel; panic on unknown node)',
+           'UTXO lookup configured, SCID already in the graph, new valid announcement naming different node ids', 'demo_c17b',
+           'C17: the real NetworkGraph panics while the harness drives it; ./check reports the op history since the last reset as the failing input. First run: harness-crash with no-failing-input-found; check now extracts the history of a crashed harness'),
+ 'C19-b': ('C19', 'MonitorUpdatingPersister::update_persisted_channel cleans up old update entries even when the consolidating full-monitor write FAILED: after a restart the old monitor is recovered without updates it had reported Completed',
+           'maximum_pending_updates >= 2, the store fails the monitors write at a consolidation point while removals succeed, then reload', 'demo_c19b',
+           'C19 c19mup: correspondence (`upd … UnrecoverableError` leaves a different key set) + impl oracle "MonitorUpdatingPersister lost or tore state: … recovered at update_id 8 equals no in-memory snapshot" with the fault schedule'),
+ 'C08-b': ('C08', 'create_recv_pending_htlc_info: the final-hop "expiry too soon" test loses its +1 (current_height >= cltv_expiry.saturating_sub(HTLC_FAIL_BACK_BUFFER)): an HTLC whose claim deadline is the very next block is reported claimable',
+           'payment HTLC with cltv_expiry == recipient height + HTLC_FAIL_BACK_BUFFER + 1', 'demo_c08b',
+           'C08: regenerated final-hop check breaks theorems final_reject_iff and never_claimable_too_soon; impl oracle "final hop accepted HTLC expiring too soon h=364 cltv=404"'),
+ 'C09-b': ('C09', 'get_update_fulfill_htlc_and_commit renumbers only the FIRST held monitor update when a preimage update jumps the queue: with >= 2 held updates two ChannelMonitorUpdates carry the same update_id',
+           '>= 2 held (blocked) monitor updates when a preimage is learned for an inbound HTLC of that channel', 'demo_c09b',
+           'C09 (mongate): probe_jump_over_held (revoke_and_ack update held behind an unhandled PaymentSent + later commitment updates, then claim): "preimage update ahead of held monitor updates (1 extra): panicked: Attempted to apply ChannelMonitorUpdates out of order". First run missed it in C09, C10, C12 and C02 (random scenarios reach at most one held update): probe family added'),
+ 'C20-b': ('C20', 'lightning-block-sync Validate for BlockData: the HeaderOnly arm no longer compares the header hash with the requested block hash: a header-only source can serve any PoW-valid header',
+           'a header-only block source answering get_block with a mismatching header', 'demo_c20b',
+           'C20: correspondence on `poll` + impl oracles "notifications do not describe one chain: connected an unknown block" / "skipped or repeated a block" with tree and fault schedule'),
+ 'C01-c': ('C01', 'can_send_update_fee compares the post-fee balance with holder_selected_channel_reserve_satoshis instead of the reserve the PEER selected: with asymmetric reserves the funder sends an update_fee the peer rejects by force-closing',
+           'peer-required reserve larger than our own, funder balance near it, feerate increase fitting above the small but not the large reserve', 'demo_c01b',
+           'C01: regenerated FeeUpdate.lean (gen_feeupd.py) breaks theorems update_fee_reserve_accepted and sender_test_is_peer_reserve; chan fee scenarios (asymmetric reserves, update_fee at quiet moments) give "honest operation produced a protocol error at node 1: Funding remote cannot afford proposed new fee". First run missed it: no update_fee and no asymmetric reserves in any scenario, reserve tests not translated — all three added'),
+ 'C03-b': ('C03', 'handle_pay_route_err PartialFailure: every Err path has its session priv removed, including Err(MonitorUpdateInProgress) paths that are still in flight: PaymentFailed while the paused HTLC is pending, or the amount re-sent',
+           'MPP send where one path returns MonitorUpdateInProgress and another fails outright in the same call', 'demo_c03b', None),
+ 'C04-b': ('C04', 'claim_payment_internal: the all-or-nothing guard compares claimable_amt_msat with claiming_payment.amount_msat (both sums over what is still there): after one MPP part was failed back at its deadline the remaining parts are claimed',
+           'MPP parts with different CLTV expiries, chain at the first claim_deadline, then claim_funds', 'demo_c04b',
+           'C04 c04mpp: correspondence (`claim` impl fulfils, model `none`) + impl oracle "an incomplete set was claimed (sum intended 1198134 < total_msat 1262038): [deadline-drop] claim 1 at height 113"'),
+ 'C05-c': ('C05', 'validate_commitment_signed accepts FEWER HTLC signatures than non-dust HTLCs (!= became >): the node stores a holder commitment it cannot fully enforce and revokes its previous, fully signed state',
+           'a commitment_signed carrying too few htlc_signatures', 'demo_c05b',
+           'C05 (chan): probe_bad_cs (drop last / drop all / foreign / swapped / surplus HTLC signatures x 1,2,4 HTLCs): "bad commitment_signed probe (kind 0, 1 HTLCs) panicked: assertion left == right failed" (the monitor debug assertion on the resulting update; in release the revoke_and_ack-sent clause fires). First run missed it: only corrupted revoke_and_ack probes existed'),
 }
 DET = {}
 p = os.path.join(ROOT, 'seeded', 'detected_by.json')
